@@ -48,6 +48,22 @@ def to_case(name, scen, prog, sched, variant, mode="mem"):
         setup = [{"op": "Set", "coll": COLL, "key": KEY, "body": "J1"}]
     procs = [{"name": p, "ops": [client_op(k, variant, p)]} for p, k in sorted(prog.items())]
     out = []
+    if scen.get("Dump"):
+        # a dump of two documents whose terminator is closed while the backfill is being delivered
+        setup = [{"op": "Set", "coll": COLL, "key": "k1", "body": "J1"}, {"op": "Set", "coll": COLL, "key": "k2", "body": "J2"}]
+        procs.append({"name": "f", "ops": [{"op": "StartFeed", "coll": COLL, "key": "fa", "f": {"backfill": "zero", "dump": True}},
+                                            {"op": "StopFeed", "coll": COLL, "key": "fa"}]})
+        nf = 0
+        for s in sched:
+            if s == "f":
+                nf += 1
+                if nf <= 3:
+                    out.append("f")
+                elif nf == 4:
+                    out += ["f", "term:fa"]
+            elif s == "run":
+                out.append("run:fa")
+        return {"name": name, "mode": mode, "setup": setup, "procs": procs, "schedule": out}
     if scen["HasFeed"]:
         fs = {"backfill": "zero" if scen["FeedBackfill"] else "none", "ckpt": "cp" if scen["Stops"] > 0 else ""}
         if scen["Stops"] > 0 and scen["FeedBackfill"]:
@@ -85,6 +101,7 @@ SCENARIOS = {
     "order":  {"HasFeed": True, "FeedBackfill": False, "Stops": 0, "FeedInit": "running"},
     "join":   {"HasFeed": True, "FeedBackfill": True, "Stops": 0, "FeedInit": "start"},
     "resume": {"HasFeed": True, "FeedBackfill": True, "Stops": 1, "FeedInit": "start"},
+    "dumpstop": {"HasFeed": True, "FeedBackfill": True, "Stops": 1, "FeedInit": "start", "Dump": True},
 }
 
 
@@ -95,7 +112,10 @@ def gen_schedules(run, scen):
     for line in out.splitlines():
         if line.startswith('"SCHEDULE '):
             s = json.loads(line)
-            res.append(json.loads(s[len("SCHEDULE "):]))
+            r = json.loads(s[len("SCHEDULE "):])
+            if isinstance(r["prog"], list):
+                r["prog"] = {}
+            res.append(r)
     if not res or "No error has been found" not in out:
         raise Inconclusive("schedule generation for %s failed:\n%s" % (scen, out[-1500:]))
     gen, distinct = tlc_stats(out)
@@ -130,7 +150,7 @@ def run(tier, seed, vh, only_paths=None, mode=None):
         gen_states = 0
         counts = {}
         for scen, limit in (("race", None), ("order", None), ("join", 120 if tier == "quick" else 3000),
-                            ("resume", 120 if tier == "quick" else 3000)):
+                            ("resume", 120 if tier == "quick" else 3000), ("dumpstop", None)):
             scheds, distinct = gen_schedules(run, scen)
             gen_states += distinct
             counts[scen] = len(scheds)
